@@ -44,6 +44,9 @@ WITNESSES = [
     b"echo x  \n",                            # R4  ... before trailing blanks
     b"for {\nL:\n}\n",                        # R6  label before "}": the implicit empty statement
     b"switch x {\ncase 1:\nL:\n}\n",          # R6
+    # regression cases of repaired defects
+    b"println([1, 2, 3][0])\nx := [1, 2][i]\ny := [a, b][1:]\necho [f(x)][0]!\n",       # R5 (repaired): indexed slice literal
+    b"x := f()!:0\ny := g(s)?:(n*2) + 1\nreturn h(a)!:(b + 1), k()!\n",                 # error wrapping with default, both operators
 ]
 
 CHAN_DIRS = ("chan ", "<-chan ", "chan<- ")
@@ -220,7 +223,7 @@ def run(ctx):
                    "channel types in type and expression position, slice/map literals, "
                    "lambdas, error wrapping, ranges, comprehensions, env expressions, units, interpolation, command calls, statements; ~10%% "
                    "damaged; NOT generated, known findings explored through the corpus: c/py string literals, matrix literals, "
-                   "command call + blank + '}', indexed slice literals); non-trivial = distinct exported tree" % (len(wit), len(files), ",".join(EXTS), ngen),
+                   "command call + blank + '}', label before '}'); non-trivial = distinct exported tree" % (len(wit), len(files), ",".join(EXTS), ngen),
               nodes_compared=nodes, oracle_stats=stats, node_kind_histogram_generated=dict(sorted(gen_h.items())),
               node_kind_histogram_corpus=dict(sorted(kinds_by.get("file", {}).items())),
               node_kind_histogram_witnesses=dict(sorted(kinds_by.get("src", {}).items())),
